@@ -75,4 +75,29 @@ theorem louvainLoop_spec {kernel : Nat → Nat → List Int × Bool} {nAgg : Int
       · right
         exact ⟨a'', k'', c'', h, hl''.trans hlen, hp'', hc'', hco.trans hco''⟩
 
+/-- with a positive `n_aggregations` the loop needs at most `n_aggregations` rounds: that much fuel suffices -/
+theorem louvainLoop_fuel_nAgg {kernel : Nat → Nat → List Int × Bool} {nAgg : Int} (hk : KernelLen kernel) :
+    ∀ (fuel count n : Nat) (a : List Nat), 0 < n → Contiguous a n → (count : Int) < nAgg →
+      nAgg ≤ (count : Int) + fuel →
+      louvainLoop kernel nAgg fuel count n (ofLabels a n) ≠ .ok none := by
+  intro fuel
+  induction fuel with
+  | zero => intro count n a _ _ h1 h2; omega
+  | succ fuel ih =>
+    intro count n a hn ha h1 h2
+    obtain ⟨a', k, hkpos, hkeq, hgm, hdot, hlen, hcont, hco⟩ :=
+      louvain_step hn (hk (count + 1) n) ha
+    unfold louvainLoop
+    simp only [hgm, hdot, bind, Except.bind, pure, Except.pure]
+    have hncol : (ofLabels (inverse (kernel (count + 1) n).1) k).nCol = k := rfl
+    rw [hncol]
+    split
+    · intro h; cases h
+    · rename_i hstop
+      have hne : ((count + 1 : Nat) : Int) ≠ nAgg := by
+        intro he
+        apply hstop
+        simp [he]
+      exact ih (count + 1) k a' hkpos hcont (by omega) (by omega)
+
 end SkNet.Clustering
